@@ -1037,7 +1037,11 @@ def _format_value(value):
     A string representation of `value` when `value` is literally representable,
     or `None`.
   """
-  literal = repr(value)
+  try:
+    literal = repr(value)
+  except ValueError:
+    # E.g. an int beyond the interpreter's int-to-str digit limit.
+    return None
   try:
     if parse_value(literal) == value:
       return literal
